@@ -428,11 +428,17 @@ fn run_race<BS: BitmapSlice>(mk: impl Fn(u32) -> Cont<BS>) -> RunInfo {
         let fd_read = cx().a(4) == 0;
         prog.push((spec, kind, fd_read, cx().a(2) == 0));
     }
+    // now and then a second writer thread issues plain buffer writes on the same container (two
+    // markers may then meet on one bitmap word)
+    let second_writer_prog: Vec<(usize, usize)> = if cx().a(2) == 0 { (0..1 + cx().a(3)).map(|_| (cx().a(size as u32) as usize, 1 + cx().a(16) as usize)).collect() } else { Vec::new() };
+    let base2 = conts[0].slice();
+    let (rid2, cbase2) = (conts[0].rid, cont_base_in_range(&conts[0]));
     {
         let c = cx();
         c.cfg.yield_atomic = true;
         c.cfg.yield_access = true;
         c.cfg.yield_sys = true;
+        c.sched.budget = 60_000;
         c.sched.policy = match c.a(5) {
             0 => Policy::Uniform,
             1 => Policy::Sticky(4, 5),
@@ -518,7 +524,10 @@ fn run_race<BS: BitmapSlice>(mk: impl Fn(u32) -> Cont<BS>) -> RunInfo {
         });
         let hbody: Box<dyn FnOnce() + '_> = Box::new(move || {
             for h in 0..nharv {
-                crate::sim::yield_point();
+                // (a simulated budget abort raised at this scheduling point must not leave the coroutine)
+                if !matches!(catch(crate::sim::yield_point), OpOutcome::Ok(())) {
+                    break;
+                }
                 let h0 = cx().events.len();
                 cx().op_begin(100 + h as u64);
                 let words = match catch(|| bm2.get_and_reset()) {
@@ -534,7 +543,30 @@ fn run_race<BS: BitmapSlice>(mk: impl Fn(u32) -> Cont<BS>) -> RunInfo {
                 log2.borrow_mut().push(format!("harvester: get_and_reset() reported {} dirty byte(s) of the container", n));
             }
         });
-        run_concurrent(vec![wbody, hbody]);
+        let (log3, kn3, wops3, prog3) = (&log, &knames, &wops, &second_writer_prog);
+        let w2body: Box<dyn FnOnce() + '_> = Box::new(move || {
+            for (k, &(off, len)) in prog3.iter().enumerate() {
+                let len = len.min(size.saturating_sub(off));
+                if len == 0 {
+                    continue;
+                }
+                let data: Vec<u8> = (0..len).map(|i| pat(77 + k as u32, i) ^ 0x3C).collect();
+                let t0 = cx().events.len();
+                cx().op_begin(200 + k as u64);
+                let r = with_allowed(rid2, &[(cbase2 + off, cbase2 + off + len)], || flat(catch(|| base2.write(&data, off)), obs_count));
+                cx().op_end(200 + k as u64, 0);
+                log3.borrow_mut().push(format!("second writer: write(buf[{}], {}) -> {:?}", len, off, r));
+                kn3.borrow_mut().push("write (second writer)");
+                let pages: BTreeSet<usize> = ((base_off + off) / ps..=(base_off + off + len - 1) / ps).collect();
+                wops3.borrow_mut().push((t0, cx().events.len(), pages, "write (second writer)"));
+            }
+        });
+        if second_writer_prog.is_empty() {
+            run_concurrent(vec![wbody, hbody]);
+        } else {
+            cx().count("probe.two_writers_and_a_harvester");
+            run_concurrent(vec![wbody, hbody, w2body]);
+        }
     }
     let c = cx();
     c.count_n("sim.steps", c.sched.steps);
